@@ -470,6 +470,8 @@ func (rn *runner) GenOp(r *vh.Rand, i int) string {
 	case 4:
 		l := "I"
 		switch {
+		case rn.client && rn.zeroPhase && !rn.sentA && len(rn.sent[2]) > 0 && r.Chance(40):
+			l = "Z" // 0-RTT rejected: all application data sent so far was 0-RTT
 		case !rn.dropped[0] && r.Chance(60):
 			l = "I"
 		case !rn.dropped[1] && r.Chance(70):
